@@ -556,6 +556,9 @@ func (m *Machine) computePure(fn *ssa.Function) bool {
 				if _, isIntr := intrTable[callee.String()]; isIntr {
 					return false
 				}
+				if _, isIntr := syncIntrinsics[callee.String()]; isIntr {
+					return false
+				}
 				if !m.staticallyPure(callee) {
 					return false
 				}
